@@ -18,7 +18,8 @@ ROOT = os.path.dirname(os.path.dirname(os.path.abspath(__file__)))
 # (VERIF_HARNESS / VERIF_BUILD: only for experiments against a scratch copy of the repository, see seeded/README)
 HARNESS = os.environ.get("VERIF_HARNESS", os.path.join(ROOT, "harness"))
 BUILD = os.environ.get("VERIF_BUILD", os.path.join(ROOT, ".build"))
-EVID = os.path.join(ROOT, "evidence")
+# Evidence describes /repo itself: an experiment against a scratch copy (VERIF_BUILD set) writes its evidence next to its build
+EVID = os.path.join(ROOT, "evidence") if "VERIF_BUILD" not in os.environ else os.path.join(BUILD, "evidence-scratch")
 REPLAYS = os.path.join(ROOT, "replays")
 KNOWN = os.path.join(ROOT, "known_findings.json")
 
